@@ -350,6 +350,149 @@ func ownPrefetch(seed int64, n int) int {
 	return corrupt
 }
 
+// scenario cachehot: many writers keep REPLACING the entries of a few hot keys (each replacement releases the old
+// entry's buffer) while many readers read the raw stored bytes of the same keys. Bytes handed to a reader must
+// be a stored value of that key: decodable and carrying that key's answer (a reader that copies a buffer the
+// cache has already released sees poison or another key's value).
+func ownCacheHot(seed int64, ops int) int {
+	cfg := &router.Config{}
+	cfg.Cache.MemSize = 256 * 1024
+	v, err := router.VerifRun(cfg)
+	if err != nil {
+		return -1
+	}
+	defer v.Close()
+	const hot = 24
+	names := make([][]byte, hot)
+	for i := range names {
+		names[i] = wireLabels([]byte(fmt.Sprintf("h%02d", i)), []byte("hot"))
+	}
+	mkq := func(name []byte) *dnsmsg.Question {
+		q := dnsmsg.NewQuestion()
+		q.Name, q.Type, q.Class = nameBuf(name), dnsmsg.TypeA, dnsmsg.ClassINET
+		return q
+	}
+	var corrupt atomic.Int64
+	var wg sync.WaitGroup
+	stop := make(chan struct{})
+	for g := 0; g < 12; g++ {
+		wg.Add(1)
+		rr := rand.New(rand.NewSource(seed + int64(g)))
+		go func() {
+			defer wg.Done()
+			for i := 0; i < ops; i++ {
+				name := names[rr.Intn(hot)]
+				q := mkq(name)
+				resp := dnsmsg.NewMsg()
+				resp.Header.Response = true
+				resp.Questions = append(resp.Questions, q.Copy())
+				a := dnsmsg.NewA()
+				a.Name = nameBuf(name)
+				a.Type, a.Class, a.TTL = dnsmsg.TypeA, dnsmsg.ClassINET, 30
+				a.A = answerFor(name, 1, 1)
+				resp.Answers = append(resp.Answers, a)
+				v.CacheStore(q, netipAddrNone, resp)
+				dnsmsg.ReleaseMsg(resp)
+				dnsmsg.ReleaseQuestion(q)
+			}
+		}()
+	}
+	var rwg sync.WaitGroup
+	for g := 0; g < 24; g++ {
+		rwg.Add(1)
+		rr := rand.New(rand.NewSource(seed + 1000 + int64(g)))
+		go func() {
+			defer rwg.Done()
+			for {
+				select {
+				case <-stop:
+					return
+				default:
+				}
+				name := names[rr.Intn(hot)]
+				q := mkq(name)
+				raw := v.CacheGetRaw(q, netipAddrNone)
+				dnsmsg.ReleaseQuestion(q)
+				if raw == nil {
+					continue
+				}
+				m, err := router.VerifUnpackCacheMsg(raw)
+				pool.ReleaseBuf(raw)
+				ok := err == nil && len(m.Answers) == 1 && len(m.Questions) == 1 && string(m.Questions[0].Name) == string(name)
+				if ok {
+					if a, isA := m.Answers[0].(*dnsmsg.A); !isA || a.A != answerFor(name, 1, 1) {
+						ok = false
+					}
+				}
+				if m != nil {
+					dnsmsg.ReleaseMsg(m)
+				}
+				if !ok {
+					corrupt.Add(1)
+				}
+			}
+		}()
+	}
+	wg.Wait()
+	close(stop)
+	rwg.Wait()
+	return int(corrupt.Load())
+}
+
+// scenario malformed: undecodable messages (record header parses, RDATA does not; lying RDLENGTH; cut inside a
+// record) interleaved with valid ones. Error paths must release every pooled object exactly once: a valid message
+// decoded afterwards must still read back as itself.
+func ownMalformed(seed int64, n int) int {
+	r := rand.New(rand.NewSource(seed))
+	corrupt := 0
+	for i := 0; i < n; i++ {
+		g := newMsgGen(r)
+		txt := g.msg()
+		mm := parseMsg(txt)
+		buf := make([]byte, mm.Len())
+		k, err := mm.Pack(buf, false, 0)
+		want := msgText(mm)
+		dnsmsg.ReleaseMsg(mm)
+		if err != nil || k < 13 {
+			continue
+		}
+		w := buf[:k]
+		// a few broken variants of w
+		for j := 0; j < 3; j++ {
+			b := append([]byte(nil), w...)
+			switch r.Intn(3) {
+			case 0:
+				b = b[:12+r.Intn(len(b)-12)]
+			case 1:
+				p := 12 + r.Intn(len(b)-12)
+				b[p] = byte(r.Intn(256))
+			default: // shorten the message by a few octets at the end: the last record's RDATA is cut
+				cut := 1 + r.Intn(4)
+				if cut < len(b)-12 {
+					b = b[:len(b)-cut]
+				}
+			}
+			if bm, err := dnsmsg.UnpackMsg(b); err == nil {
+				dnsmsg.ReleaseMsg(bm)
+			}
+		}
+		m2, err := dnsmsg.UnpackMsg(w)
+		if err != nil {
+			corrupt++
+			continue
+		}
+		m3, err3 := dnsmsg.UnpackMsg(w) // two live copies of the same names at once
+		if msgText(m2) != want || err3 != nil || msgText(m3) != want {
+			corrupt++
+		}
+		dnsmsg.ReleaseMsg(m2)
+		if m3 != nil {
+			dnsmsg.ReleaseMsg(m3)
+		}
+	}
+	return corrupt
+}
+
 func runOwnership(cs string) string {
 	m := kv(cs)
 	seed := int64(atoi(m["seed"]))
@@ -367,6 +510,10 @@ func runOwnership(cs string) string {
 		corrupt = ownHandleMix(seed, atoi(m["per"]))
 	case "prefetch":
 		corrupt = ownPrefetch(seed, atoi(m["n"]))
+	case "cachehot":
+		corrupt = ownCacheHot(seed, atoi(m["ops"]))
+	case "malformed":
+		corrupt = ownMalformed(seed, atoi(m["n"]))
 	default:
 		return "bad-case"
 	}
@@ -389,6 +536,8 @@ func genOwnership(r *rand.Rand, thorough bool, emit func(c, cat string)) {
 		emit(fmt.Sprintf("scenario=stress per=%d clients=%d seed=%d", per, clients, r.Intn(1<<30)), "stress")
 		emit(fmt.Sprintf("scenario=handlemix per=%d seed=%d", per*100, r.Intn(1<<30)), "handlemix")
 		emit(fmt.Sprintf("scenario=prefetch n=%d seed=%d", per*10, r.Intn(1<<30)), "prefetch")
+		emit(fmt.Sprintf("scenario=cachehot ops=%d seed=%d", per*150, r.Intn(1<<30)), "cachehot")
+		emit(fmt.Sprintf("scenario=malformed n=%d seed=%d", per*15, r.Intn(1<<30)), "malformed")
 	}
 }
 
